@@ -12,7 +12,8 @@ ID = "C07"
 LEVEL = "exploration"
 RULE = ("scenario = legal frame stream with 0..6 pings (payload 0..125 arbitrary bytes; empty and maximal emphasised) "
         "before, between and inside fragmented messages (and floods of 300..5000 pings consumed inside one receive call), consecutive pings, pongs and data that must draw no reply, "
-        "read with recv / recv_data / recv_data_frame with and without control-frame reporting, under seeded "
+        "also after the application's own send_close(), and after one pong's write failed transiently (later pings are still owed "
+        "a pong); read with recv / recv_data / recv_data_frame with and without control-frame reporting, under seeded "
         "chunking and short writes while the pong is being written; oracle on the global event order: once the recv "
         "that hands over the last byte of ping i has returned, the client's next transport operations are sends that "
         "form exactly one pong with payload i, and only then the next recv; total frames written = pings (+1 close "
@@ -79,10 +80,19 @@ def plan(tier, seed):
         items.append({"kind": "rand", "start": s, "count": per})
     for nn in ((300, 1100, 2500) if tier == "quick" else (300, 900, 1000, 1100, 2500, 5000)):
         items.append({"kind": "flood", "n": nn})
+    items.append({"kind": "light", "exhaustive": "1..5 pings x {write of pong k fails transiently, none} x {send_close() first, not} x {data between, not}"})
     return items
 
 
 def expand(item, seed):
+    if item["kind"] == "light":
+        for n in range(1, 6):
+            pl = [bytes([65 + i]) * (i * 31 % 126) for i in range(n)]
+            for k in [None] + list(range(n)):
+                for pre in (False, True):
+                    for between in (False, True):
+                        yield {"pings": [p_.hex() for p_ in pl], "fault_at": k, "send_close_first": pre, "data_between": between, "seed": 2}
+        return
     if item["kind"] == "flood":
         for pos in ("idle", "inside"):
             for api in ("recv", "recv_data", "recv_data_frame"):
@@ -117,7 +127,82 @@ def _flood(fl):
     return [{"fin": 0, "op": 2, "hex": "01"}] + pings + [{"fin": 1, "op": 0, "hex": "02"}]
 
 
+def run_light(sc):
+    """Two situations in which later pings must still be answered: (a) the write of one pong fails transiently before any
+    of its bytes is accepted (write timeout on a socket with a timeout) - that pong is lost, the following ones are owed;
+    (b) the application has sent its own close frame with send_close() and keeps receiving - a pong is a control frame and
+    is still owed until the server's close frame arrives."""
+    from ..harness import std_world, HOST, exc_name
+    res = Result()
+    try:
+        pings = [bytes.fromhex(h) for h in sc["pings"]]
+        if not 1 <= len(pings) <= 8 or any(len(p_) > 125 for p_ in pings):
+            raise InvalidScenario("pings")
+        k = sc.get("fault_at")
+        pre_close = bool(sc.get("send_close_first"))
+        if k is not None and not 0 <= int(k) < len(pings):
+            raise InvalidScenario("fault_at")
+        between = bool(sc.get("data_between"))
+    except (KeyError, TypeError, ValueError) as e:
+        raise InvalidScenario(str(e))
+    stream = bytearray()
+    for i, p_ in enumerate(pings):
+        stream += R.encode_frame(1, 9, p_)
+        if between:
+            stream += R.encode_frame(1, 2, bytes([i]))
+    stream += R.encode_frame(1, 8, b"\x03\xe8")
+    sock = {}
+    if k is not None:
+        off = sum(len(R.encode_frame(1, 10, p_, b"\0\0\0\0")) for p_ in pings[:int(k)]) + (8 if pre_close else 0)
+        sock["send_fail"] = {"after_bytes": off, "errno": "TIMEOUT"}
+    peer_cfg = {"script": [{"t": S // 4, "hex": bytes(stream).hex(), "close": True}], "on_close": {"mode": "never"}, "on_ping": {"mode": "never"},
+                "eof_on_client_eof": False}
+    w, peers = std_world(seed=int(sc.get("seed", 1)), peer_cfg=peer_cfg, sock=sock, step_cap=300_000)
+    seen = []
+    with w:
+        ws = w.ws
+        c = ws.WebSocket()
+        c.settimeout(2)
+        c.connect(f"ws://{HOST}/")
+        try:
+            if pre_close:
+                c.send_close(1000, b"")
+            for _ in range(3 * len(pings) + 6):
+                try:
+                    op, data = c.recv_data(True)
+                except SimAbort:
+                    raise
+                except ws.WebSocketTimeoutException:
+                    continue
+                except BaseException as e:  # noqa
+                    seen.append(("exc", exc_name(e)))
+                    break
+                seen.append((op, bytes(data)))
+                if op == 8:
+                    break
+        except SimAbort:
+            seen.append(("abort", w.k.abort_reason))
+        frames = peers[0].client_frames()
+    res.absorb(w)
+    pongs = [f.payload for f in frames if f.opcode == 10]
+    want_all = list(pings)
+    want_lost = [p_ for i, p_ in enumerate(pings) if k is None or i != int(k)]
+    ctx = ("after_send_close" if pre_close else "open") + ("/one_pong_write_failed" if k is not None else "")
+    got_pings = [d for op, d in seen if op == 9]
+    if got_pings != pings:
+        res.violate("observation_differs", ctx, f"pings handed to the caller {len(got_pings)} of {len(pings)}; calls ended with {seen[-1:]}")
+    elif pongs != want_all and pongs != want_lost:
+        res.violate("pongs_differ_from_pings", ctx, f"{len(pings)} pings read, pongs on the wire {[p_[:6] for p_ in pongs]}, owed {[p_[:6] for p_ in want_lost]}"
+                    + (f" (the write of pong #{k} timed out before any byte was accepted)" if k is not None else ""))
+    res.sig = repr(("light", len(pings), k, pre_close, between))
+    res.nontrivial = True
+    res.probes["pong_after_write_fault" if k is not None else "pong_after_own_close"] = 1
+    return res
+
+
 def run(sc, choices=None):
+    if sc.get("pings") is not None:
+        return run_light(sc)
     res = Result()
     try:
         if sc.get("flood"):
@@ -130,6 +215,8 @@ def run(sc, choices=None):
         sender = sc.get("sender")
         if sender is not None and not (0 <= int(sender["msgs"]) <= 6 and 0 <= int(sender["len"]) <= 2000):
             raise InvalidScenario("sender")
+        if sender is not None and sc.get("no_multithread"):
+            raise InvalidScenario("without the locks only one thread may use the connection")
     except (KeyError, TypeError, ValueError) as e:
         raise InvalidScenario(str(e))
     if api == "recv_frame":
@@ -164,6 +251,7 @@ def run(sc, choices=None):
 
     if sc.get("prior"):
         cfg["prior"] = dict(sc["prior"])  # the object was used before: an earlier connection was lost mid-frame / mid-message
+    cfg["no_multithread"] = bool(sc.get("no_multithread"))
     out = run_recv(int(sc.get("seed", 1)), stream, cfg, res, side=side, policy=sc.get("policy") if sender is not None else None,
                    choices=choices)
     w = out["world"]
@@ -263,6 +351,8 @@ def _judge_threaded(res, out, frames, app_msgs, api, sc):
 
 
 def sample_view(sc, r):
+    if sc.get("pings") is not None:
+        return {k_: sc.get(k_) for k_ in ("pings", "fault_at", "send_close_first", "data_between")}
     return {"api": sc["api"], "ping_flood": sc.get("flood"), "frames": [[f["fin"], f["op"], len(f["hex"]) // 2] for f in sc["frames"][:40]],
             "chunk_sizes": sc.get("sizes"), "short_write_pattern": sc.get("accept"), "send_would_block_at_calls": sc.get("send_eagain"),
             "concurrent_sender": sc.get("sender"), "policy": sc.get("policy")}
@@ -279,6 +369,8 @@ def gen(rng):
     pr = _gen_prior(rng)
     if pr:
         sc["prior"] = pr
+    if rng.random() < 0.1 and not sc.get("sender"):
+        sc["no_multithread"] = True  # WebSocket(enable_multithread=False): the no-op lock stand-in (one thread only)
     return sc
 
 
